@@ -459,13 +459,17 @@ func (c12) Run(e *Env) {
 
 	// settle: no more submissions or faults; every call answers fully; until all submissions are
 	// accepted, nothing is parked, nothing is pending on InfoSource and every re-query was issued.
-	allAcceptedAt := -1
+	allAcceptedAt, lastCallRound := -1, 0
 	for i := 0; ; i++ {
+		if i > 20000 {
+			e.Failf("C12/provider-calls-never-stop", "with every provider call answered in full at once, calls are still being issued after %d settle rounds of 15ms", i)
+		}
 		e.Settle()
 		ticks()
 		seeCalls()
 		for _, p := range prov.gate.Parked() {
 			release(p, 0)
+			lastCallRound = i
 		}
 		drain()
 		ticks()
@@ -481,10 +485,12 @@ func (c12) Run(e *Env) {
 		}
 		// after the last submission was accepted, give the dispatcher a generous simulated second
 		// (batching window, rate limiter, backlog of duplicate re-queries)
-		if allAcceptedAt >= 0 && i-allAcceptedAt >= 70 {
+		// ... and as long as provider calls keep coming, the backlog is still draining (every refresh
+		// tick during a slow call queues the expired sources once more, one call each at batch limit 1)
+		if allAcceptedAt >= 0 && i-allAcceptedAt >= 70 && i-lastCallRound >= 70 {
 			break
 		}
-		if i > 600 {
+		if i > 600 && allAcceptedAt < 0 {
 			e.Failf("C12/submission-never-accepted", "%d of %d submitted sources were not accepted within %d settle rounds of 15ms with every provider call answered at once", pendingSub-acc, pendingSub, i)
 		}
 		sleep(15 * time.Millisecond)
